@@ -8,10 +8,10 @@ use samlang_ast::{
 };
 
 fn analyze_number_of_iterations_to_break_less_than_guard(
-  initial_guard_value: i32,
-  guard_increment_amount: i32,
-  guarded_value: i32,
-) -> Option<i32> {
+  initial_guard_value: i64,
+  guard_increment_amount: i64,
+  guarded_value: i64,
+) -> Option<i64> {
   // Condition is already satisfied, so it does not loop.
   if initial_guard_value >= guarded_value {
     return Some(0);
@@ -23,7 +23,7 @@ fn analyze_number_of_iterations_to_break_less_than_guard(
   }
   let difference = guarded_value - initial_guard_value;
   let count =
-    difference / guard_increment_amount + ((difference % guard_increment_amount != 0) as i32);
+    difference / guard_increment_amount + ((difference % guard_increment_amount != 0) as i64);
   Some(count)
 }
 
@@ -33,28 +33,28 @@ fn analyze_number_of_iterations_to_break_guard(
   operator: GuardOperator,
   guarded_value: i32,
 ) -> Option<i32> {
-  match operator {
-    GuardOperator::LT => analyze_number_of_iterations_to_break_less_than_guard(
-      initial_guard_value,
-      guard_increment_amount,
-      guarded_value,
-    ),
-    GuardOperator::LE => analyze_number_of_iterations_to_break_less_than_guard(
-      initial_guard_value,
-      guard_increment_amount,
-      guarded_value + 1,
-    ),
-    GuardOperator::GT => analyze_number_of_iterations_to_break_less_than_guard(
-      -initial_guard_value,
-      -guard_increment_amount,
-      -guarded_value,
-    ),
-    GuardOperator::GE => analyze_number_of_iterations_to_break_less_than_guard(
-      -initial_guard_value,
-      -guard_increment_amount,
-      -(guarded_value - 1),
-    ),
-  }
+  // Computed in 64 bits: `guarded_value - initial_guard_value`, `guarded_value + 1` and the negations
+  // do not always fit in 32 bits.
+  let (initial, increment, guarded) =
+    (initial_guard_value as i64, guard_increment_amount as i64, guarded_value as i64);
+  let count = match operator {
+    GuardOperator::LT => {
+      analyze_number_of_iterations_to_break_less_than_guard(initial, increment, guarded)
+    }
+    GuardOperator::LE => {
+      analyze_number_of_iterations_to_break_less_than_guard(initial, increment, guarded + 1)
+    }
+    GuardOperator::GT => {
+      analyze_number_of_iterations_to_break_less_than_guard(-initial, -increment, -guarded)
+    }
+    GuardOperator::GE => {
+      analyze_number_of_iterations_to_break_less_than_guard(-initial, -increment, -(guarded - 1))
+    }
+  }?;
+  // The closed form only describes the loop when the variable reaches the bound without wrapping
+  // around in 32 bits.
+  i32::try_from(initial + increment * count).ok()?;
+  i32::try_from(count).ok()
 }
 
 pub(super) fn optimize(
